@@ -51,6 +51,13 @@ func genC11(r *Rng, tier string) *C11Scn {
 	if r.Chance(0.1) {
 		lim = c11Limits{maxKeys: 3000, maxTasks: 12, maxUnits: 8}
 	}
+	hammer := r.Chance(0.06)
+	if hammer {
+		// few tasks, hundreds of cheap units each: while one task is parked the
+		// others perform hundreds of operations (counters, generations and ring
+		// indexes in the code under test wrap around)
+		lim = c11Limits{maxKeys: 300, maxTasks: 4, maxUnits: 400}
+	}
 	if tier == "thorough" {
 		switch r.Intn(10) {
 		case 0:
@@ -145,6 +152,9 @@ func genC11(r *Rng, tier string) *C11Scn {
 	nt := r.Range(2, lim.maxTasks)
 	for i := 0; i < nt; i++ {
 		nu := r.Range(1, lim.maxUnits)
+		if hammer {
+			nu = r.Range(lim.maxUnits/2, lim.maxUnits)
+		}
 		ts := TaskSpec{}
 		for j := 0; j < nu; j++ {
 			ts.Units = append(ts.Units, genUnit(r, qs, mix))
